@@ -157,4 +157,68 @@ Proof.
   apply r_log. apply (r_upd_st x s i Defeated (fun c => cpend c)); [exact H|].
   intros c0 Hc Hi c'. specialize (HS c0 Hc Hi). cbn in HS. unfold fwd. cbn [fst snd]. destruct HS as [-> | ->]; exact I.
 Qed.
+
+(* ---- Sat bookkeeping ---- *)
+Lemma sat_other_upd (s : est) i j f P : j <> i -> Sat s j P -> Sat (upd A s i f) j P ->  Sat (upd A s i f) j P.
+Proof. auto. Qed.
+
+Lemma in_upd_cand i f (l : list (cand A)) c' : In c' (upd_cand A i f l) ->
+  exists c, In c l /\ c' = (if cid c =? i then f c else c).
+Proof. unfold upd_cand. intros H. apply in_map_iff in H. destruct H as (c & E & Hc). exists c. auto. Qed.
+
+Lemma sat_upd_other (s : est) i j f P : (forall c, cid (f c) = cid c) -> j <> i -> Sat s j P -> Sat (upd A s i f) j P.
+Proof.
+  intros Hf Hne HS c' Hc' Hj. unfold upd in Hc'. cbn [cands set_cands] in Hc'.
+  destruct (in_upd_cand _ _ _ _ Hc') as (c & Hc & ->). destruct (cid c =? i) eqn:E.
+  - rewrite Hf in Hj. lia.
+  - exact (HS c Hc Hj).
+Qed.
+Lemma sat_log (s : est) t m j P : Sat s j P -> Sat (log_action A cfg t m s) j P.
+Proof. unfold Sat. unfold log_action. destruct (is_log t); [auto|]. destruct (is_round t); auto. Qed.
+Lemma sat_same (s s' : est) j P : cands s' = cands s -> Sat s j P -> Sat s' j P.
+Proof. unfold Sat. intros ->. auto. Qed.
+
+Lemma sat_elect_other i j m p (s : est) P : j <> i -> Sat s j P -> Sat (elect A cfg i m p s) j P.
+Proof.
+  intros Hne HS. unfold elect. destruct (find_cand A (cands s) i); [|apply (sat_same s); auto].
+  apply sat_log. apply sat_upd_other; auto.
+Qed.
+Lemma sat_defeat_other i j m (s : est) P : j <> i -> Sat s j P -> Sat (defeat A cfg i m s) j P.
+Proof.
+  intros Hne HS. unfold defeat. destruct (find_cand A (cands s) i); [|apply (sat_same s); auto].
+  apply sat_log. apply sat_upd_other; auto.
+Qed.
+
+(* "for c in L: op(c)" where op settles cid c and leaves the others alone *)
+Lemma r_fold (op : est -> Z -> est) (pre : sp -> Prop) (l : list (cand A)) :
+  (forall x s i, R x s -> Sat s i pre -> R x (op s i)) ->
+  (forall s i j, j <> i -> Sat s j pre -> Sat (op s i) j pre) ->
+  forall x s, R x s -> NoDup (map (@cid A) l) -> (forall c, In c l -> Sat s (cid c) pre) ->
+  R x (fold_left (fun s c => op s (cid c)) l s).
+Proof.
+  intros Hop Hoth. induction l as [|c0 l IH]; intros x s HR Hnd Hpre; cbn [fold_left]; [exact HR|].
+  inversion Hnd as [|? ? Hnotin Hnd']; subst. apply IH; [|exact Hnd'|].
+  - apply Hop; [exact HR|apply Hpre; left; reflexivity].
+  - intros c Hc. apply Hoth; [|apply Hpre; right; exact Hc].
+    intros E. apply Hnotin. rewrite <- E. apply in_map. exact Hc.
+Qed.
+
+(* candidates drawn from the current state *)
+Lemma hopeful_sat (s : est) c : NoDup (map (@cid A) (cands s)) -> In c (hopefuls A s) -> Sat s (cid c) (fun a => fst a = Hopeful).
+Proof.
+  intros Hnd Hc c' Hc' E. unfold hopefuls in Hc. apply filter_In in Hc. destruct Hc as [Hin Hst].
+  assert (c' = c).
+  { clear Hst. induction (cands s) as [|x l IH]; [contradiction|]. cbn in Hnd. inversion Hnd as [|? ? Hn Hnd']; subst.
+    destruct Hin as [->|Hin], Hc' as [->|Hc']; auto.
+    - exfalso. apply Hn. rewrite <- E. apply in_map. exact Hc'.
+    - exfalso. apply Hn. rewrite E. apply in_map. exact Hin. }
+  subst c'. cbn. unfold in_state in Hst. destruct (cst c); cbn in Hst; try discriminate; reflexivity.
+Qed.
+
+Lemma nodup_map_filter {X Y} (f : X -> Y) (p : X -> bool) (l : list X) : NoDup (map f l) -> NoDup (map f (filter p l)).
+Proof.
+  induction l as [|x l IH]; cbn; intros H; [constructor|]. inversion H as [|? ? Hn Hnd]; subst.
+  destruct (p x); cbn; [constructor; [|apply IH; exact Hnd]|apply IH; exact Hnd].
+  intros Hin. apply Hn. apply in_map_iff in Hin. destruct Hin as (y & E & Hy). apply filter_In in Hy. rewrite <- E. apply in_map. exact (proj1 Hy).
+Qed.
 End Fwd.
